@@ -1,5 +1,549 @@
-//! C25 harness (stub: not implemented yet).
+//! C25 — sync targets. Runs the real `Announcer` and `Fetcher` state machines on operation sequences.
+//!
+//! Announcer case: `A <me> <repl> <preferred> <synced> <unsynced> <ops>`
+//! Fetcher case:   `F <me> <repl> <seeds> <extra> <ops>`
+//! (the same tokens the Lean driver reads; see `lean/HeartwoodModel/Driver/C25.lean`).
+//! Node `k` is the k-th of 16 fixed node ids sorted by public key, so that `BTreeSet` order = index order.
+//! The oracle evaluates the property statement over *sets of distinct nodes other than the local node*,
+//! independently of the model.
+
+use std::collections::{BTreeMap, BTreeSet, HashSet};
+use std::ops::ControlFlow;
+use std::time::Duration;
+
+use radicle::crypto::test::signer::MockSigner;
+use radicle::crypto::Signer as _;
+use radicle::node::sync::announce::{self, Announcer, AnnouncerConfig, AnnouncerError, AnnouncerResult};
+use radicle::node::sync::fetch::{self, Candidate, Fetcher, FetcherConfig, FetcherError, FetcherResult};
+use radicle::node::sync::ReplicationFactor;
+use radicle::node::{Address, FetchResult, NodeId};
+use verif_common::*;
+
+const N_NODES: usize = 16;
+
+fn nodes() -> Vec<NodeId> {
+    let mut v: Vec<NodeId> = (0..N_NODES)
+        .map(|i| {
+            let mut seed = [0x25u8; 32];
+            seed[0] = i as u8;
+            *MockSigner::from_seed(seed).public_key()
+        })
+        .collect();
+    v.sort();
+    v.dedup();
+    assert_eq!(v.len(), N_NODES);
+    v
+}
+
+fn set(s: &str) -> Option<Vec<usize>> {
+    if s == "-" {
+        return Some(vec![]);
+    }
+    let v: Vec<usize> = s.split(',').map(|x| x.parse().ok()).collect::<Option<_>>()?;
+    if v.windows(2).any(|w| w[0] >= w[1]) || v.iter().any(|k| *k >= N_NODES) {
+        return None;
+    }
+    Some(v)
+}
+
+fn list(s: &str) -> Option<Vec<usize>> {
+    if s == "-" {
+        return Some(vec![]);
+    }
+    let v: Vec<usize> = s.split(',').map(|x| x.parse().ok()).collect::<Option<_>>()?;
+    if v.iter().any(|k| *k >= N_NODES) {
+        return None;
+    }
+    Some(v)
+}
+
+fn repl(s: &str) -> Option<ReplicationFactor> {
+    if let Some(n) = s.strip_prefix('m') {
+        Some(ReplicationFactor::must_reach(n.parse().ok()?))
+    } else if let Some(r) = s.strip_prefix('r') {
+        let (lo, hi) = r.split_once('-')?;
+        Some(ReplicationFactor::range(lo.parse().ok()?, hi.parse().ok()?))
+    } else {
+        None
+    }
+}
+
+fn bound(r: &ReplicationFactor) -> usize {
+    r.upper_bound().unwrap_or(r.lower_bound())
+}
+
+fn show(ns: impl IntoIterator<Item = NodeId>, all: &[NodeId]) -> String {
+    let mut v: Vec<u64> = ns.into_iter().map(|n| all.iter().position(|x| *x == n).map(|i| i as u64).unwrap_or(999)).collect();
+    v.sort();
+    nats(&v)
+}
+
+fn bad() -> Outcome {
+    Outcome::new("bad-case").trivial().tag("bad-case")
+}
+
+fn run_announcer(f: &[&str]) -> Outcome {
+    if f.len() != 7 {
+        return bad();
+    }
+    let all = nodes();
+    let (Ok(me), Some(rf), Some(pref), Some(synced), Some(unsynced)) = (f[1].parse::<usize>(), repl(f[2]), set(f[3]), set(f[4]), set(f[5])) else {
+        return bad();
+    };
+    if me >= N_NODES {
+        return bad();
+    }
+    let ops: Vec<&str> = if f[6] == "-" { vec![] } else { f[6].split(',').collect() };
+    let to = |v: &[usize]| v.iter().map(|k| all[*k]).collect::<BTreeSet<NodeId>>();
+    let cfg = AnnouncerConfig::public(all[me], rf, to(&pref), to(&synced), to(&unsynced));
+    let mut viol: Vec<(String, String)> = vec![];
+    let mut tags: Vec<String> = vec!["announcer".into()];
+    let mut out = String::new();
+    let mut ann = match catch(|| Announcer::new(cfg)) {
+        Err(m) => return Outcome::new("panic").tag("panic").violation("announcer-panic", m),
+        Ok(Err(AnnouncerError::NoSeeds)) => return Outcome::new("new:noSeeds").trivial().tag("ann-new-noSeeds"),
+        Ok(Err(AnnouncerError::AlreadySynced(a))) => {
+            return Outcome::new(format!("new:already:{}/{}", a.preferred(), a.synced())).trivial().tag("ann-new-already")
+        }
+        Ok(Err(AnnouncerError::Target(_))) => return Outcome::new("new:target").trivial().tag("ann-new-target"),
+        Ok(Ok(a)) => a,
+    };
+    out.push_str("ok");
+    // --- specification state: sets of distinct nodes other than the local node ---
+    let pref_s: BTreeSet<usize> = pref.iter().copied().filter(|k| *k != me).collect();
+    let mut s: BTreeSet<usize> = synced.iter().copied().filter(|k| *k != me).collect();
+    let b = bound(ann.target().replicas());
+    let target_met = |s: &BTreeSet<usize>| pref_s.is_subset(s) && s.len() >= b;
+    if target_met(&s) {
+        viol.push(("announcer-constructed-with-target-met".into(), "Announcer::new returned an announcer whose target is already met".into()));
+    }
+    let mut done = false;
+    let mut broke = false;
+    for op in ops {
+        if done {
+            break;
+        }
+        let res = catch(|| -> Option<(Announcer, bool)> {
+            match op {
+                "q" => {
+                    let ts = ann.to_sync();
+                    if ts.contains(&all[me]) {
+                        viol.push(("announcer-handed-out-local".into(), "to_sync() contains the local node".into()));
+                    }
+                    out.push_str(&format!(";Q{}", show(ts, &all)));
+                    Some((ann, false))
+                }
+                "c" => match ann.can_continue() {
+                    ControlFlow::Break(no) => {
+                        out.push_str(&format!(";N{}", show(no.synced().keys().copied(), &all)));
+                        tags.push("ann-no-nodes".into());
+                        None
+                    }
+                    ControlFlow::Continue(a) => {
+                        out.push_str(";K");
+                        Some((a, false))
+                    }
+                },
+                "t" => {
+                    let met = target_met(&s);
+                    match ann.timed_out() {
+                        AnnouncerResult::Success(su) => {
+                            let (kind, p, n) = match su.outcome() {
+                                announce::SuccessfulOutcome::MinReplicationFactor { preferred, synced } => ("min", preferred, synced),
+                                announce::SuccessfulOutcome::MaxReplicationFactor { preferred, synced } => ("max", preferred, synced),
+                            };
+                            out.push_str(&format!(";S{kind}:{p}/{n}:{}", show(su.synced().keys().copied(), &all)));
+                            tags.push("ann-timedout-success".into());
+                            if !met {
+                                viol.push(("announcer-success-target-unmet".into(), format!("timed_out() reports success, synced set {s:?}, preferred {pref_s:?}, bound {b}")));
+                            }
+                            if su.synced().contains_key(&all[me]) {
+                                viol.push(("announcer-counted-local".into(), "local node in the synced map".into()));
+                            }
+                        }
+                        AnnouncerResult::TimedOut(to) => {
+                            out.push_str(&format!(";T{}|{}", show(to.synced().keys().copied(), &all), show(to.timed_out().iter().copied(), &all)));
+                            tags.push("ann-timedout-timeout".into());
+                            if met {
+                                viol.push(("announcer-timeout-target-met".into(), format!("timed_out() reports a timeout although the target is met: synced set {s:?}, preferred {pref_s:?}, bound {b}")));
+                            }
+                            if to.synced().contains_key(&all[me]) || to.timed_out().contains(&all[me]) {
+                                viol.push(("announcer-counted-local".into(), "local node in the synced map or timed-out set".into()));
+                            }
+                        }
+                        AnnouncerResult::NoNodes(_) => out.push_str(";?"),
+                    }
+                    None
+                }
+                _ => {
+                    let k: usize = op.strip_prefix('s').and_then(|x| x.parse().ok()).filter(|k| *k < N_NODES).expect("bad-op");
+                    let before = ann.progress();
+                    let r = ann.synced_with(all[k], Duration::from_secs(1));
+                    if k != me {
+                        s.insert(k);
+                    }
+                    let met = target_met(&s);
+                    let want_p = s.intersection(&pref_s).count();
+                    match r {
+                        ControlFlow::Continue(p) => {
+                            out.push_str(&format!(";C{}/{}", p.preferred(), p.synced()));
+                            if k == me {
+                                tags.push("ann-sync-local".into());
+                                if p != before {
+                                    viol.push(("announcer-counted-local".into(), "synced_with(local) changed the progress".into()));
+                                }
+                            } else if met && !broke {
+                                viol.push(("announcer-continue-target-met".into(), format!("synced_with({k}) continues although the target is met: synced set {s:?}, preferred {pref_s:?}, bound {b}")));
+                            }
+                            if p.synced() != s.len() || p.preferred() != want_p {
+                                viol.push(("announcer-count-mismatch".into(), format!("progress {}/{} but {} distinct synced nodes, {} preferred", p.preferred(), p.synced(), s.len(), want_p)));
+                            }
+                            Some((ann, false))
+                        }
+                        ControlFlow::Break(su) => {
+                            let (kind, p, n) = match su.outcome() {
+                                announce::SuccessfulOutcome::MinReplicationFactor { preferred, synced } => ("min", preferred, synced),
+                                announce::SuccessfulOutcome::MaxReplicationFactor { preferred, synced } => ("max", preferred, synced),
+                            };
+                            out.push_str(&format!(";B{kind}:{p}/{n}"));
+                            if !met {
+                                viol.push(("announcer-success-target-unmet".into(), format!("synced_with({k}) reports success, synced set {s:?}, preferred {pref_s:?}, bound {b}")));
+                            }
+                            if n != s.len() || p != want_p {
+                                viol.push(("announcer-count-mismatch".into(), format!("outcome {p}/{n} but {} distinct synced nodes, {} preferred", s.len(), want_p)));
+                            }
+                            Some((ann, true))
+                        }
+                    }
+                }
+            }
+        });
+        match res {
+            Err(m) => {
+                if m == "bad-op" {
+                    return bad();
+                }
+                return Outcome::new("panic").tag("panic").violation("announcer-panic", m);
+            }
+            Ok(None) => {
+                done = true;
+                // `ann` was consumed; stop.
+                let mut o = Outcome::new(out);
+                o.violations = viol;
+                tags.sort();
+                tags.dedup();
+                o.tags = tags;
+                return o;
+            }
+            Ok(Some((a, b))) => {
+                ann = a;
+                if b {
+                    broke = true;
+                    tags.push("ann-break".into());
+                }
+            }
+        }
+    }
+    let mut o = Outcome::new(out);
+    o.violations = viol;
+    o.nontrivial = true;
+    tags.sort();
+    tags.dedup();
+    o.tags = tags;
+    o
+}
+
+fn success() -> FetchResult {
+    FetchResult::Success { updated: vec![], namespaces: HashSet::new(), clone: false }
+}
+
+fn fet_outcome(o: &fetch::SuccessfulOutcome) -> String {
+    match o {
+        fetch::SuccessfulOutcome::PreferredNodes { preferred } => format!("pref{preferred}"),
+        fetch::SuccessfulOutcome::MinReplicas { succeeded } => format!("min{succeeded}"),
+        fetch::SuccessfulOutcome::MaxReplicas { succeeded, min, max } => format!("max{succeeded}/{min}/{max}"),
+    }
+}
+
+fn run_fetcher(f: &[&str]) -> Outcome {
+    if f.len() != 6 {
+        return bad();
+    }
+    let all = nodes();
+    let (Ok(me), Some(rf), Some(seeds), Some(extra)) = (f[1].parse::<usize>(), repl(f[2]), set(f[3]), list(f[4])) else {
+        return bad();
+    };
+    if me >= N_NODES {
+        return bad();
+    }
+    let ops: Vec<&str> = if f[5] == "-" { vec![] } else { f[5].split(',').collect() };
+    let cfg = FetcherConfig::public(seeds.iter().map(|k| all[*k]).collect(), rf, all[me])
+        .with_candidates(extra.iter().map(|k| Candidate::new(all[*k])));
+    let mut viol: Vec<(String, String)> = vec![];
+    let mut tags: Vec<String> = vec!["fetcher".into()];
+    let mut out = String::new();
+    let mut fet = match catch(|| Fetcher::new(cfg)) {
+        Err(m) => return Outcome::new("panic").tag("panic").violation("fetcher-panic", m),
+        Ok(Err(FetcherError::NoCandidates)) => return Outcome::new("new:noCandidates").trivial().tag("fet-new-noCandidates"),
+        Ok(Err(FetcherError::Target(_))) => return Outcome::new("new:target").trivial().tag("fet-new-target"),
+        Ok(Err(_)) => return Outcome::new("new:other").trivial(),
+        Ok(Ok(x)) => x,
+    };
+    out.push_str("ok");
+    // --- specification state ---
+    let seeds_s: BTreeSet<usize> = seeds.iter().copied().collect();
+    let b = bound(fet.target().replicas());
+    let mut first: BTreeMap<usize, bool> = BTreeMap::new(); // first reported result per node != me
+    let mut reported: BTreeSet<usize> = BTreeSet::new(); // nodes for which any result was reported
+    let succ = |first: &BTreeMap<usize, bool>| first.iter().filter(|(_, ok)| **ok).map(|(k, _)| *k).collect::<BTreeSet<usize>>();
+    let target_met = |s: &BTreeSet<usize>| (!seeds_s.is_empty() && seeds_s.is_subset(s)) || s.len() >= b;
+    let addr = Address::from(std::net::SocketAddr::from(([8, 8, 8, 8], 8776)));
+    let idx = |n: &NodeId| all.iter().position(|x| x == n);
+    let mut finished = false;
+    let mut dup = false;
+    let mut local_reported = false;
+    for op in ops {
+        let r = catch(|| -> Result<(), ()> {
+            match op {
+                "n" | "f" => {
+                    let got = if op == "n" { fet.next_node() } else { fet.next_fetch().map(|(n, _)| n) };
+                    match got {
+                        None => out.push_str(&format!(";{op}-")),
+                        Some(n) => {
+                            let k = idx(&n);
+                            out.push_str(&format!(";{op}{}", k.map(|k| k.to_string()).unwrap_or("?".into())));
+                            if k == Some(me) {
+                                viol.push(("fetcher-handed-out-local".into(), format!("{} returned the local node", if op == "n" { "next_node" } else { "next_fetch" })));
+                            }
+                            if let Some(k) = k {
+                                if reported.contains(&k) {
+                                    viol.push(("fetcher-handed-out-node-with-result".into(), format!("node {k} already has a result but was handed out by {}", if op == "n" { "next_node" } else { "next_fetch" })));
+                                }
+                            }
+                        }
+                    }
+                    Ok(())
+                }
+                "z" => Err(()),
+                _ => {
+                    let (c, k) = op.split_at(1);
+                    let k: usize = k.parse().ok().filter(|k| *k < N_NODES).expect("bad-op");
+                    match c {
+                        "r" => {
+                            fet.ready_to_fetch(all[k], addr.clone());
+                            out.push_str(";r");
+                        }
+                        "x" => {
+                            fet.fetch_failed(all[k], "verif");
+                            out.push_str(";x");
+                            if k != me {
+                                first.entry(k).or_insert(false);
+                            } else {
+                                local_reported = true;
+                            }
+                            if !reported.insert(k) {
+                                dup = true;
+                            }
+                        }
+                        "o" | "e" => {
+                            let ok = c == "o";
+                            let res = if ok { success() } else { FetchResult::Failed { reason: "verif".into() } };
+                            let r = fet.fetch_complete(all[k], res);
+                            if k != me {
+                                first.entry(k).or_insert(ok);
+                            } else {
+                                local_reported = true;
+                            }
+                            if !reported.insert(k) {
+                                dup = true;
+                            }
+                            let s = succ(&first);
+                            let met = target_met(&s);
+                            let want_p = s.intersection(&seeds_s).count();
+                            let (p, n) = match r {
+                                ControlFlow::Continue(p) => {
+                                    out.push_str(&format!(";C{}/{}", p.preferred(), p.succeeded()));
+                                    if met {
+                                        viol.push(("fetcher-continue-target-met".into(), format!("fetch_complete({k}) continues although the target is met: succeeded set {s:?}, seeds {seeds_s:?}, bound {b}")));
+                                    }
+                                    (p.preferred(), p.succeeded())
+                                }
+                                ControlFlow::Break(su) => {
+                                    out.push_str(&format!(";B{}:{}/{}", fet_outcome(su.outcome()), su.progress().preferred(), su.progress().succeeded()));
+                                    if !met {
+                                        viol.push(("fetcher-success-target-unmet".into(), format!("fetch_complete({k}) reports success, but the distinct non-local succeeded nodes are {s:?}, seeds {seeds_s:?}, bound {b}")));
+                                    }
+                                    (su.progress().preferred(), su.progress().succeeded())
+                                }
+                            };
+                            if n != s.len() || p != want_p {
+                                viol.push(("fetcher-count-mismatch".into(), format!("counters {p}/{n} but {} distinct non-local succeeded nodes, {} of them preferred", s.len(), want_p)));
+                            }
+                        }
+                        _ => panic!("bad-op"),
+                    }
+                    Ok(())
+                }
+            }
+        });
+        match r {
+            Err(m) if m == "bad-op" => return bad(),
+            Err(m) => return Outcome::new("panic").tag("panic").violation("fetcher-panic", m),
+            Ok(Err(())) => {
+                finished = true;
+                break;
+            }
+            Ok(Ok(())) => {}
+        }
+    }
+    if finished {
+        let s = succ(&first);
+        let met = target_met(&s);
+        match catch(|| fet.finish()) {
+            Err(m) => return Outcome::new("panic").tag("panic").violation("fetcher-panic", m),
+            Ok(FetcherResult::TargetReached(su)) => {
+                out.push_str(&format!(";R{}:{}/{}", fet_outcome(su.outcome()), su.progress().preferred(), su.progress().succeeded()));
+                tags.push("fet-finish-reached".into());
+                if !met {
+                    viol.push(("fetcher-success-target-unmet".into(), format!("finish() reports TargetReached, but the distinct non-local succeeded nodes are {s:?}, seeds {seeds_s:?}, bound {b}")));
+                }
+                if su.fetch_results().iter().any(|(n, r)| *n == all[me] && r.is_success()) {
+                    viol.push(("fetcher-counted-local".into(), "a successful result of the local node is among the results".into()));
+                }
+            }
+            Ok(FetcherResult::TargetError(miss)) => {
+                out.push_str(&format!(
+                    ";E{}:{}:{}/{}",
+                    show(miss.missed_nodes().iter().copied(), &all),
+                    miss.required_nodes(),
+                    miss.progress().preferred(),
+                    miss.progress().succeeded()
+                ));
+                tags.push("fet-finish-missed".into());
+                if met {
+                    viol.push(("fetcher-failure-target-met".into(), format!("finish() reports TargetError although the target is met: succeeded set {s:?}, seeds {seeds_s:?}, bound {b}")));
+                }
+                if miss.fetch_results().failed().any(|(n, _)| *n == all[me]) {
+                    // observation only (fetch_failed is not guarded); never counts towards the target
+                    tags.push("obs-local-node-in-failed-list".into());
+                }
+            }
+        }
+    }
+    if dup {
+        tags.push("fet-repeated-result".into());
+    }
+    if local_reported {
+        tags.push("fet-local-reported".into());
+    }
+    if seeds_s.contains(&me) {
+        tags.push("fet-local-among-seeds".into());
+    }
+    let mut o = Outcome::new(out);
+    o.violations = viol;
+    o.nontrivial = true;
+    tags.sort();
+    tags.dedup();
+    o.tags = tags;
+    o
+}
+
+fn run_case(input: &str) -> Outcome {
+    let f: Vec<&str> = input.split(' ').collect();
+    match f.first() {
+        Some(&"A") => run_announcer(&f),
+        Some(&"F") => run_fetcher(&f),
+        _ => bad(),
+    }
+}
+
+fn gen_set(rng: &mut Rng, universe: u64, max: u64) -> Vec<u64> {
+    let n = rng.below(max + 1);
+    let mut s = BTreeSet::new();
+    for _ in 0..n {
+        s.insert(rng.below(universe));
+    }
+    s.into_iter().collect()
+}
+
+fn gen_repl(rng: &mut Rng) -> String {
+    match rng.below(4) {
+        0 | 1 => format!("m{}", rng.below(5)),
+        2 => {
+            let lo = rng.below(4);
+            format!("r{lo}-{}", lo + rng.range(1, 3))
+        }
+        _ => format!("r{}-{}", rng.below(4), rng.below(5)),
+    }
+}
+
+fn gen_case(rng: &mut Rng) -> String {
+    let universe = rng.range(4, 9);
+    let me = rng.below(universe);
+    let repl = gen_repl(rng);
+    if rng.bool() {
+        // announcer
+        let pref = gen_set(rng, universe, 3);
+        let synced = gen_set(rng, universe, 2);
+        let mut unsynced = gen_set(rng, universe, 5);
+        if unsynced.is_empty() && rng.chance(3, 4) {
+            unsynced.push(rng.below(universe));
+        }
+        let n = rng.range(1, 10);
+        let mut ops = vec![];
+        for _ in 0..n {
+            ops.push(match rng.below(12) {
+                0 => "q".to_string(),
+                1 => "c".to_string(),
+                2 => format!("s{me}"),
+                // nodes of the universe (known, unknown, repeated), sometimes one outside every set
+                3 => format!("s{}", universe + rng.below(3)),
+                _ => format!("s{}", rng.below(universe)),
+            });
+        }
+        ops.push("t".into());
+        format!("A {me} {repl} {} {} {} {}", nats(&pref), nats(&synced), nats(&unsynced), ops.join(","))
+    } else {
+        let seeds = gen_set(rng, universe, 3);
+        let extra: Vec<u64> = (0..rng.below(5)).map(|_| rng.below(universe)).collect();
+        let n = rng.range(1, 14);
+        let mut ops = vec![];
+        let mut handed: Vec<u64> = vec![];
+        for _ in 0..n {
+            let k = if !handed.is_empty() && rng.chance(2, 3) { *rng.pick(&handed) } else { rng.below(universe + 1) };
+            ops.push(match rng.below(14) {
+                0..=2 => "n".to_string(),
+                3 => "f".to_string(),
+                4..=5 => format!("r{k}"),
+                6 => format!("x{k}"),
+                7 => format!("e{k}"),
+                8 => format!("o{me}"),
+                _ => format!("o{k}"),
+            });
+            handed.push(k);
+        }
+        if rng.chance(9, 10) {
+            ops.push("z".into());
+        }
+        format!("F {me} {repl} {} {} {}", nats(&seeds), nats(&extra), ops.join(","))
+    }
+}
+
 fn main() {
-    eprintln!("C25: harness not implemented");
-    std::process::exit(3);
+    let mut ctx = Ctx::from_args("C25");
+    if !ctx.run_fixed(run_case) {
+        let mut rng = ctx.rng();
+        for _ in 0..ctx.size(6_000, 300_000) {
+            let input = gen_case(&mut rng);
+            let o = run_case(&input);
+            ctx.record(&input, o);
+        }
+    }
+    ctx.finish(
+        "random announcer / fetcher configurations (local node inside or outside the sets, preferred seeds, synced/unsynced sets, \
+         must-reach and range replication factors incl. 0 and inverted ranges, extra candidates with repetitions) and random operation sequences \
+         (results for known, unknown and the local node, repeated results, failed-then-succeeded, queries of next_node/next_fetch/to_sync, \
+         can_continue, timed_out/finish); non-trivial = the machine was constructed and at least one operation ran; distinct by input text",
+        false,
+    );
 }
